@@ -266,6 +266,22 @@ pub fn run(ctx: &mut Ctx) {
             if ctx.out_of_time() { break }
         }
     }
+    // Long runs: a defect that needs many requests on ONE connection (a per-connection table that only grows, a counter that
+    // wraps, a buffer that creeps) is out of reach of any depth bound.  Every cycle of 1..=2 requests that keeps the session
+    // alive is repeated `reps` times on one connection; every response is compared with the fresh one as above.
+    let reps = if quick { 150 } else { 400 };
+    let keeps = |i: usize| !alpha[i].closes && !(matches!(alpha[i].kind, "refused" | "malformed") && wire::status_of(&fresh[i]) >= 400);
+    let mut cycles: Vec<Vec<usize>> = (0..n).filter(|&i| keeps(i)).map(|i| vec![i]).collect();
+    for a in 0..n { for b in 0..n { if a != b && keeps(a) && keeps(b) { cycles.push(vec![a, b]) } } }
+    let mut long_runs = 0u64;
+    for w in &cycles {
+        if !ctx.mine() { continue }
+        if ctx.out_of_time() { break }
+        let h: Vec<usize> = w.iter().copied().cycle().take(w.len() * reps).collect();
+        check_history(ctx, &router, &alpha, &fresh, &h);
+        ctx.states += 1; long_runs += 1;
+    }
+    ctx.extra.insert("long_runs".into(), json!(format!("{long_runs} cycles of 1..=2 requests in this shard, each repeated {reps} times on one connection")));
     ctx.extra.insert("rule".into(), json!("case = sequence of requests on one connection, one segment per request; non-trivial = length >= 2; collision = an earlier request carries material that could leak (payload, params, headers, context, long buffer contents) or is longer than its successor (stale buffer bytes)"));
     ctx.extra.insert("bounds".into(), json!({"alphabet": alpha.iter().map(|r| r.name).collect::<Vec<_>>(), "max_length": max_len, "tcp_conformance_length": conform_len}));
     ctx.sample(|| json!({"history": ["post-nul-mid", "put-short", "get-hit"]}));
